@@ -524,8 +524,15 @@ func globalKey(g *ssa.Global) string { return g.Pkg.Pkg.Path() + "." + g.Name() 
 func (e *Engine) globalValue(s *State, g *ssa.Global) *Term {
 	key := globalKey(g)
 	t := g.Type().(*types.Pointer).Elem()
-	if lit, ok := e.globalStringLit(g); ok {
+	if lit, ok := e.globalStringLit(g); ok && !e.globalAssigned(g) {
 		return e.strLit(lit)
+	}
+	if spec, idx := e.findGlobalSpec(g); spec != nil && len(spec.Values) <= idx && len(spec.Values) == 0 && !e.globalAssigned(g) {
+		// declared without initialiser: the zero value (package-level variables are assumed immutable)
+		switch t.Underlying().(type) {
+		case *types.Array, *types.Basic, *types.Struct:
+			return e.zero(t)
+		}
 	}
 	c := e.tb.Const("G_"+sanitize(shortPkgOf(g.Pkg.Pkg)+"_"+g.Name()), e.sortOf(t))
 	if !e.globalsUsed[key] {
